@@ -35,6 +35,33 @@ type Point struct{ X, Y int }
 
 type ID string
 
+type IDs []string
+
+type Table map[string]int
+
+type Mapper func(int) string
+
+type Pair [2]int
+
+type AliasSlice = []int
+
+type PP *Point
+
+// Types covers named, aliased and nested type shapes (nillable detection, value routing).
+type Types interface {
+	NamedSlice(ids IDs) IDs
+	NamedMap(t Table) (Table, error)
+	NamedFunc(f Mapper) Mapper
+	Arrays(p Pair, q [3]string) (Pair, [2]bool)
+	Aliases(a AliasSlice) AliasSlice
+	PtrPtr(p **Point) **Point
+	NamedPtr(p PP) PP
+	SliceOfIface(es []error, ns []Named) ([]error, []any)
+	MapOfSlices(m map[string][]int) map[ID]*Point
+	Struct3(a, b, c Point) (x, y Point)
+	IfaceAndNil(r io.Reader, e error) (io.Reader, error, io.Reader)
+}
+
 type Basic interface {
 	NoArgsNoRet()
 	OneArg(s string)
@@ -113,7 +140,7 @@ type mIface struct {
 	TypeArgs string // "" or "[string, int]"
 }
 
-var mIfaces = []mIface{{"Basic", ""}, {"Nillables", ""}, {"Shadow", ""}, {"ShadowR", ""}, {"Twins", ""}, {"Embeds", ""}, {"Gen", "[string, int]"}, {"VarOne", ""}, {"VarTwo", ""}, {"VarVoid", ""}}
+var mIfaces = []mIface{{"Types", ""}, {"Basic", ""}, {"Nillables", ""}, {"Shadow", ""}, {"ShadowR", ""}, {"Twins", ""}, {"Embeds", ""}, {"Gen", "[string, int]"}, {"VarOne", ""}, {"VarTwo", ""}, {"VarVoid", ""}}
 
 type mVariant struct {
 	Name  string
